@@ -119,6 +119,11 @@ func c11Worker(args []string) {
 				loc = l
 			}
 		}
+		sharedLabels := map[string]interface{}{}
+		for q := 0; q < 400; q++ {
+			sharedLabels[fmt.Sprintf("k%d", q)] = q
+		}
+		sharedNested := map[string]interface{}{"inner": sharedLabels}
 		N := G * runsEach
 		objs := make([]c11Obj, N)
 		for i := range objs {
@@ -229,6 +234,11 @@ func c11Worker(args []string) {
 						script = fmt.Sprintf("c = c + 1; if (hour(%d) == %d && minute(%d) == %d && seconds(%d) == %d && day(%d) == %d && month(%d) == %d && year(%d) == %d && weekday(%d) == \"%s\" && now() > 0) { return c; } return 0 - c;",
 							ts, tm.Hour(), ts, tm.Minute(), ts, tm.Second(), ts, tm.Day(), ts, int(tm.Month()), ts, tm.Year(), ts, tm.Weekday().String())
 					}
+					if k%5 == 1 {
+						// host objects of different evaluators may share sub-structures (one
+						// labels / configuration map referenced from many records)
+						script = "c = c + 1; if (len(Labels) == 400 && Labels[\"k7\"] == 7 && Labels.k399 == 399 && len(Nested.inner) == 400 && Word ~= /^w/) { return c; } return 0 - c;"
+					}
 					e := evalfilter.New(script)
 					e.SetVariable("c", &object.Integer{Value: 0})
 					if err := e.Prepare(); err != nil {
@@ -236,7 +246,11 @@ func c11Worker(args []string) {
 						return
 					}
 					for j := 1; j <= 3; j++ {
-						out, err := e.Execute(map[string]interface{}{"Word": word})
+						obj := map[string]interface{}{"Word": word}
+						if k%5 == 1 {
+							obj["Labels"], obj["Nested"] = sharedLabels, sharedNested
+						}
+						out, err := e.Execute(obj)
 						ownRunsBy[g]++
 						if err != nil || out.Inspect() != fmt.Sprint(j) {
 							ownMismatch[g] = append(ownMismatch[g], fmt.Sprintf("own evaluator %s run %d gave %v err=%v", script, j, out.Inspect(), err))
@@ -342,7 +356,7 @@ var raceFrameRe = regexp.MustCompile(`(github\.com/skx/evalfilter/v2[^\s(]*)`)
 func c11(c *ev.Ctx) {
 	c.SetRule("Go race detector (-race build, GORACE halt_on_error=0 with log files) + history checkers over a child process: W1 16 goroutines x 200 Run calls on one shared evaluator (fields, variables, ~=, switch on regexps, sort/split/replace, user function) with seeded Gosched/sleep injected through the step hook; W2/W3 16 more goroutines concurrently preparing and running their own evaluators over distinct regexps. Oracles: no race report with a library frame and no fatal runtime error; every concurrent verdict equals the sequential verdict of a fresh evaluator; the persistent counter noted by a thread-safe host function takes every value 1..N exactly once and ends at N; the recorded {call, return, n} history is linearizable against a counter model (porcupine, 60 s timeout => inconclusive). Distinct = distinct round (seeded objects, GOMAXPROCS); non-trivial = the note log shows goroutine switches.")
 	rounds := c.Pick(5, 100)
-	G, runsEach := 16, 200
+	G, runsEach := 16, c.Pick(120, 200)
 	work := filepath.Join(ev.Root, "work", fmt.Sprintf("c11-%d", os.Getpid()))
 	os.MkdirAll(work, 0o755)
 	defer os.RemoveAll(work)
